@@ -161,9 +161,10 @@ var Snaps = []Snap{
 	{Name: "20:t/1-REPLICA_NOT_AVAILABLE", Brokers: brks(1, 2), Ctrl: 2, Topics: []Topic{
 		{Name: "t", Parts: []Part{ok(0, 1, i32(1, 2), i32(1, 2), nil), {ID: 1, Leader: 2, Rep: i32(2, 3), Isr: i32(2), Err: EReplicaNA}}},
 		{Name: "u", Parts: []Part{ok(0, 2, i32(2), i32(2), nil)}}}},
-	// (same shape as snapshot 4 - two partitions, one of them leaderless - but the OTHER one: only the identity differs)
+	// (same shape as snapshot 4 - two partitions, one of them leaderless - but the OTHER one: only the identity differs; and
+	// the entry still names the previous leader, a listed broker, next to the error code: the code is what the response says)
 	{Name: "21:t/1-leaderless", Brokers: brks(1, 2), Ctrl: 1, Topics: []Topic{
-		{Name: "t", Parts: []Part{ok(0, 1, i32(1, 2), i32(1, 2), nil), lna(1, i32(2, 1), i32(1))}},
+		{Name: "t", Parts: []Part{ok(0, 1, i32(1, 2), i32(1, 2), nil), {ID: 1, Leader: 2, Rep: i32(2, 1), Isr: i32(1), Err: ELeaderNA}}},
 		{Name: "u", Parts: []Part{ok(0, 2, i32(2), i32(2), nil)}}}},
 	// ---- thorough tier only (QuickSnaps = the 22 above)
 	{Name: "22:t-middle-partition-removed", Brokers: brks(1, 2), Ctrl: 1, Topics: []Topic{
